@@ -133,10 +133,15 @@ def run_case(case):
     logger = logging.getLogger("srver")
     replies = []
     outcomes = []
-    for line in case["lines"]:
+    class _HungUp(io.BytesIO):
+        """the client has gone: every write to its connection fails"""
+        def write(self, data):
+            raise BrokenPipeError(32, "Broken pipe")
+
+    for li, line in enumerate(case["lines"]):
         outcomes.append(classify_line(line))
         rfile = io.BytesIO(line if line.endswith(b"\n") else line + b"\n")
-        wfile = io.BytesIO()
+        wfile = _HungUp() if li in case.get("hangup", ()) else io.BytesIO()
         stop = False
         escaped = None
         try:
